@@ -1731,8 +1731,8 @@ static void *peg_unmarshal(JanetMarshalContext *ctx) {
                 i += 2;
                 break;
             case RULE_READINT:
-                /* [ width | (endianness << 5) | (signedness << 6), tag ] */
-                if (rule[1] > JANET_MAX_READINT_WIDTH) goto bad;
+                /* [ width | (signedness << 4) | (endianness << 5), tag ] */
+                if ((rule[1] & ~0x30u) > JANET_MAX_READINT_WIDTH) goto bad;
                 i += 3;
                 break;
             case RULE_NTH:
